@@ -7,7 +7,9 @@ from sexpr import enc
 PROP_MODS = ["ODataVerif.Tie.Orm", "ODataVerif.Tie.SaFunctions"] + [m for m in ("ODataVerif.Props.C15",) if os.path.exists(common.lean_module_path(m))]
 
 FILTERS = ["a gt 0", "a eq 2 or s eq 'a'", "o/n eq 5", "o/n eq 5 or a eq 2", "o/n eq null", "not (o/name eq 'x')", "w/o/label eq 'l'", "o/name eq 'x' and w/o/label eq 'l'",
-           "kids/any(k: k/x eq 2)", "kids/all(k: k/x eq 2)", "tags/any()", "o/n eq 5 and kids/any()", "not (kids/any()) or o/n lt 0", "o/ps/any(q: q/a gt 0)", "s ne null and o/name ne null"]
+           "kids/any(k: k/x eq 2)", "kids/all(k: k/x eq 2)", "tags/any()", "o/n eq 5 and kids/any()", "not (kids/any()) or o/n lt 0", "o/ps/any(q: q/a gt 0)", "s ne null and o/name ne null",
+           # through a foreign key that references a natural key: the needed join cannot be replaced by the local column
+           "dept/id eq 2", "dept/id eq 10 or a eq 2", "not (dept/id eq 2)", "dept/number eq 10 and dept/id eq 2", "dept/id eq null"]
 
 def sat_ids(db, filters):
     D = rc.enc_db(db)
@@ -41,7 +43,7 @@ def sa_bases(env, style):
     if style == "legacy":
         q = lambda: oc.sa_session().query(P)
         return [("query", q, None), ("pre-filtered", lambda: q().filter(P.a >= 0), None), ("pre-joined P.o (used)", lambda: q().join(P.o), "join:o"),
-                ("pre-joined outer P.o", lambda: q().outerjoin(P.o), "join:o"), ("pre-joined P.w (maybe unused)", lambda: q().outerjoin(P.w), "join:w"),
+                ("pre-joined outer P.o", lambda: q().outerjoin(P.o), "join:o"), ("pre-joined P.w (maybe unused)", lambda: q().outerjoin(P.w), "join:w"), ("pre-joined P.dept (natural key)", lambda: q().outerjoin(P.dept), None),
                 ("pre-joined P.o filtered on it", lambda: q().join(P.o).filter(O.n == 5), "join:o"), ("ordered desc", lambda: q().order_by(P.id.desc()), "order")]
     if style == "core":
         t = P.__table__
@@ -182,7 +184,7 @@ def run(ctx):
     def search(ctx):
         found = [{"property": "C15", "backend": v[0], "base": v[1], "filter": v[2], "why": v[3], "signature": f"C15:{v[0]}:{v[1]}",
                   "replay": "build the base query on the shape database (relcommon.shapes_db), apply the shorthand, compare ids with (ids of the base) ∩ Spec.evalR"} for v in viol[:40]]
-        ctx.extra["searched"] = "10 Django bases, 8+7+3 SQLAlchemy bases x 15 filters x databases; sqlalchemy.func probes in two fresh processes (before/after and after-only)"
+        ctx.extra["searched"] = "10 Django bases, 8+7+3 SQLAlchemy bases x 20 filters x databases; sqlalchemy.func probes in two fresh processes (before/after and after-only)"
         return found
 
     return common.finish(
